@@ -471,6 +471,11 @@ func runProp(prop string) int {
 		fmt.Println("BROKEN-CHECK no obligations generated")
 		return 2
 	}
+	// vacuity guard: far fewer obligations than this property had when its contracts were
+	// last recorded means contracts no longer attach to it (lost attribution, renamed
+	// function) - the check would pass for lack of anything to prove
+	tooFew := cfg.Expect > 0 && *flagFunc == "" && len(rr.obls) < cfg.Expect
+	nObls := len(rr.obls)
 	if *flagDump != "" {
 		os.MkdirAll(*flagDump, 0o755)
 		for i, o := range rr.obls {
@@ -693,6 +698,10 @@ func runProp(prop string) int {
 	}
 	if violations > 0 {
 		return 1
+	}
+	if tooFew {
+		fmt.Printf("BROKEN-CHECK only %d obligations generated, at least %d expected (min_obligations in props.json): contracts of this property no longer attach\n", nObls, cfg.Expect)
+		return 2
 	}
 	return 0
 }
